@@ -7,7 +7,7 @@
 From stdpp Require Import gmap list.
 From Coq Require Import NArith ZArith.
 From VFS Require Import Core.Types Core.Prog Core.Calls Base.MemFS Base.Handles Base.Store Layer.VfsPath Layer.Overlay Layer.Config Layer.Run
-  Proofs.MemProofs Proofs.OvlProofs Proofs.OvlList Proofs.OvlLife Proofs.CopyFile Proofs.OvlAppend.
+  Spec.Tree Proofs.MemProofs Proofs.MemPublic Proofs.OvlProofs Proofs.OvlList Proofs.OvlLife Proofs.CopyFile Proofs.OvlAppend Proofs.OvlDeep.
 
 Notation mstate := (gmap (list (list N)) memfile).
 
@@ -133,6 +133,55 @@ Theorem C09_create_fresh_file : forall lg ft (s0 s1 : mstate) hs (n : list N),
    Ok (length hs)).
 Proof. exact create_fresh_file. Qed.
 
+(** ** the create contracts RELATIVE TO THE UNION, at any depth.
+    [view s0 s1 q] is what the overlay shows at q: the write layer first, else - unless q is marked as
+    deleted - the lower layer.  [reachable] : p is a path of the caller's namespace (not below the
+    bookkeeping directory, no empty names) all of whose ancestors the view shows as directories - they may
+    exist in the lower layer only, in which case the overlay copies them up, which the view does not
+    show.  For ALL contents of the two layers: *)
+
+(** create_dir on a path the view does not show (never there, or deleted): succeeds; afterwards the view
+    shows a directory at p and is unchanged at every other path of the caller's namespace *)
+Theorem C09_create_dir_any_depth : forall lg ft (s0 s1 : mstate) hs (p : path),
+  wf s0 -> p <> [] -> reachable s0 s1 p -> view s0 s1 p = None ->
+  (forall g, s0 !! whiteout_path (v0, []) p = Some g -> f_type g = File) ->
+  exists s0',
+    run bhandler (ovl_impl (v0, []) [(v1, [])] (CCreateDir p)) (mstore2 s0 s1 hs lg ft) = (mstore2 s0' s1 hs lg ft, Ok tt) /\
+    wf s0' /\
+    forall q, user_path q -> view s0' s1 q = if decide (q = p) then Some NDir else view s0 s1 q.
+Proof. exact create_dir_deep. Qed.
+
+(** create_file likewise: an EMPTY file appears at p (whatever the lower layer holds under a deleted p) *)
+Theorem C09_create_file_any_depth : forall lg ft (s0 s1 : mstate) hs (p : path),
+  wf s0 -> p <> [] -> reachable s0 s1 p -> view s0 s1 p = None ->
+  (forall g, s0 !! whiteout_path (v0, []) p = Some g -> f_type g = File) ->
+  exists s0',
+    run bhandler (ovl_impl (v0, []) [(v1, [])] (CCreateFile p)) (mstore2 s0 s1 hs lg ft) =
+      (mstore2 s0' s1 (hs ++ [HMemWriter 0 p [] 0]) lg ft, Ok (length hs)) /\
+    wf s0' /\
+    forall q, user_path q -> view s0' s1 q = if decide (q = p) then Some (NFile []) else view s0 s1 q.
+Proof. exact create_file_deep. Qed.
+
+(** create_dir on a path the view shows - in whichever layer: refused as directory-exists or
+    file-exists according to what is shown; the view is unchanged at EVERY path *)
+Theorem C09_create_dir_occupied_any_depth : forall lg ft (s0 s1 : mstate) hs (p : path) (x : node),
+  wf s0 -> p <> [] -> reachable s0 s1 p -> view s0 s1 p = Some x ->
+  exists s0',
+    run bhandler (ovl_impl (v0, []) [(v1, [])] (CCreateDir p)) (mstore2 s0 s1 hs lg ft) =
+      (mstore2 s0' s1 hs lg ft, fail (match x with NDir => EDirExists | NFile _ => EFileExists end)) /\
+    wf s0' /\ forall q, view s0' s1 q = view s0 s1 q.
+Proof. exact create_dir_occupied_deep. Qed.
+
+(** non-vacuity: /a/b exists in the lower layer only; create_dir /a/b/c copies the chain up and shows c *)
+Example C09_any_depth_example :
+  let dirn := mkMemFile Dir [] TAuto (Some TAuto) (Some TAuto) in
+  let lo : mstate := <[[[97%N]; [98%N]] := dirn]> (<[[[97%N]] := dirn]> mem_new) in
+  let p := [[97%N]; [98%N]; [99%N]] in
+  view mem_new lo [[97%N]; [98%N]] = Some NDir /\ view mem_new lo p = None /\
+  exists s0', fst (run bhandler (ovl_impl (v0, []) [(v1, [])] (CCreateDir p)) (mstore2 mem_new lo [] [] None)) = mstore2 s0' lo [] [] None /\
+              view s0' lo p = Some NDir /\ is_Some (s0' !! [[97%N]; [98%N]]).
+Proof. vm_compute. repeat split; eauto. Qed.
+
 (** KNOWN FINDING (D28), kept visible: "the union behaves as an ordinary tree" is false of the faithful
     model when a name ends in the marker suffix.  The marker of /a is the FILE /.whiteout/a_wo, the
     markers of the children of a directory /a_wo live in the DIRECTORY /.whiteout/a_wo: removing
@@ -168,3 +217,7 @@ Print Assumptions C09_append_continues_lower_bytes.
 Print Assumptions C09_marker_collision_witness.
 Print Assumptions C09_create_fresh_dir.
 Print Assumptions C09_create_fresh_file.
+Print Assumptions C09_create_dir_any_depth.
+Print Assumptions C09_create_file_any_depth.
+Print Assumptions C09_create_dir_occupied_any_depth.
+Print Assumptions C09_any_depth_example.
